@@ -157,6 +157,21 @@ class MemoryBank(Elaboratable):
                 m.d.sync += overflow_addr[i].eq(read_output_addr[i])
                 m.d.sync += overflow_data[i].eq(read_output_next[i])
 
+        @def_methods(m, self.write)
+        def _(i: int, arg):
+            m.d.av_comb += write_port[i].addr.eq(arg.addr)
+            m.d.av_comb += write_port[i].data.eq(arg.data)
+            if self.granularity is None:
+                m.d.comb += write_port[i].en.eq(1)
+            else:
+                m.d.comb += write_port[i].en.eq(arg.mask)
+
+        if self.read_on_resp and self.transparent:
+            # the response forwards the data of a write made in the same cycle: it reads the run of the write method
+            for write in self.write:
+                for read_resp in self.read_resp:
+                    write.schedule_before(read_resp)  # to avoid combinational loops
+
         @def_methods(m, self.read_resp, lambda i: read_output_valid[i] | overflow_valid[i])
         def _(i: int):
             with m.If(overflow_valid[i]):
@@ -195,15 +210,6 @@ class MemoryBank(Elaboratable):
                 m.d.comb += read_port[i].addr.eq(addr)
             else:
                 m.d.av_comb += read_port[i].addr.eq(addr)
-
-        @def_methods(m, self.write)
-        def _(i: int, arg):
-            m.d.av_comb += write_port[i].addr.eq(arg.addr)
-            m.d.av_comb += write_port[i].data.eq(arg.data)
-            if self.granularity is None:
-                m.d.comb += write_port[i].en.eq(1)
-            else:
-                m.d.comb += write_port[i].en.eq(arg.mask)
 
         return m
 
